@@ -68,6 +68,9 @@ MANUAL = [
     ("C01", "float_literal_not_f32_exact_next_to_double", r"eager:differs_from_graph_and_python_reading",
      "float literal next to a DOUBLE operand: the converter emits Constant(float32)+CastLike (0.001 -> 0.0010000000475), eager mode converts the Python float "
      "to float64 exactly; documented design of the static route, but the three front ends disagree (also C12)"),
+    ("C01", "python_mod_on_float_tensor", r"(call|model):(graph_not_executable|graph_differs_from_python_reading)",
+     "`X % Y` or `X % 2` with a floating-point tensor X and a right operand that is not a float literal: the converter cannot see X's type and emits Mod without fmod=1, "
+     "which ONNX does not define for floating-point tensors (onnxruntime fails: 'fmod attribute must be true for floating point types'); eager mode (Tensor.__mod__) sets fmod=1 from the dtype"),
     ("C01", "python_not_on_tensor_eager", r"eager:(raises|differs_from_graph_and_python_reading)", "`not X` on a non-scalar BOOL tensor: Python's `not` cannot be overloaded, eager raises ValueError (truth value ambiguous) "
      "while the converter translates it to Not"),
     ("C01", "loop_variable_assigned_bare_eager", r"eager:raises", "`v = i` with i a for-loop variable: eager mode binds i to a Python int, so v is a Python int after the loop and returning it raises TypeError ('Unexpected type <class int>'); the graph yields an INT64 tensor"),
